@@ -341,7 +341,66 @@ func foreignTypedefIdentityref() []engine.Violation {
 	return vs
 }
 
+// caseOnlyNames: identities, typedefs and enum names that differ only in the case of their letters are
+// different definitions; each leaf accepts the values of its own one.
+func caseOnlyNames() []engine.Violation {
+	mods := map[string]string{
+		"sb": "module sb { namespace \"urn:sb\"; prefix sb; identity af; identity AF; identity ipv4 { base af; } identity Osi { base AF; } }",
+		"a": "module a { namespace \"urn:a\"; prefix a; import sb { prefix sb; } identity transport; identity Transport; identity tcp { base transport; } identity Truck { base Transport; } identity ship { base Transport; }" +
+			" typedef t { type int8 { range \"0..5\"; } } typedef T { type string { length \"2\"; } }" +
+			" leaf lower { type identityref { base transport; } } leaf upper { type identityref { base Transport; } } leaf xlower { type identityref { base sb:af; } } leaf xupper { type identityref { base sb:AF; } }" +
+			" leaf lt { type t; } leaf lT { type T; } leaf e { type enumeration { enum on; enum On; } } leaf u { type union { type t; type T; } } }",
+	}
+	r := gen.Compile(mods, gen.Options{})
+	if !r.OK() {
+		return []engine.Violation{{Key: "type-does-not-compile:names-differing-in-case", Detail: fmt.Sprint(r.Err, r.Panic)}}
+	}
+	want := map[string]map[string]bool{
+		"lower":  {"tcp": true, "Truck": false, "ship": false, "transport": false, "Transport": false, "TCP": false, "Tcp": false},
+		"upper":  {"tcp": false, "Truck": true, "ship": true, "truck": false, "Ship": false, "Transport": false},
+		"xlower": {"sb:ipv4": true, "sb:Osi": false, "sb:af": false, "sb:AF": false, "sb:IPV4": false},
+		"xupper": {"sb:ipv4": false, "sb:Osi": true, "sb:osi": false},
+		"lt":     {"3": true, "ab": false, "7": false},
+		"lT":     {"ab": true, "3": false, "abc": false},
+		"e":      {"on": true, "On": true, "ON": false, "oN": false},
+		"u":      {"3": true, "ab": true, "7": false, "abc": false},
+	}
+	var vs []engine.Violation
+	for name, table := range want {
+		n := r.MS.Child(name)
+		if n == nil {
+			vs = append(vs, engine.Violation{Key: "leaf-missing:names-differing-in-case", Witness: name})
+			continue
+		}
+		for v, ok := range table {
+			var err error
+			var p any
+			func() {
+				defer func() { p = recover() }()
+				err = n.Type().Validate(valCtx{}, []string{name, v}, v)
+			}()
+			w := fmt.Sprintf("leaf %s, value %q (module: identities transport / Transport, af / AF; typedefs t / T; enums on / On)", name, v)
+			switch {
+			case p != nil:
+				vs = append(vs, engine.Violation{Key: "panic:names-differing-in-case:" + name, Witness: w, Detail: fmt.Sprint(p)})
+			case ok && err != nil:
+				vs = append(vs, engine.Violation{Key: "rejects-member:names-differing-in-case:" + name, Witness: w, Detail: err.Error()})
+			case !ok && err == nil:
+				vs = append(vs, engine.Violation{Key: "accepts-non-member:names-differing-in-case:" + name, Witness: w, Detail: "Validate accepts it"})
+			}
+		}
+	}
+	return vs
+}
+
 func run(c *engine.Ctx) {
+	if c.Shard == 0 && c.Case("names-differing-in-case") {
+		c.Add("states", 1)
+		c.Nontrivial()
+		for _, v := range caseOnlyNames() {
+			c.Report(v)
+		}
+	}
 	if c.Shard == 0 && c.Case("identityref-through-foreign-typedef") {
 		c.Add("states", 42)
 		for _, v := range foreignTypedefIdentityref() {
